@@ -447,6 +447,21 @@ func runWaitersCase(ctx *Ctx, specs [][2]interface{}, script []string) {
 				c.flush("touch " + f[1])
 			}
 			c.settle()
+		case "get":
+			// a read purges an expired record (and must then wake its waiters) but changes nothing else
+			c.st.Get(bg, f[1])
+			c.flush("touch " + f[1])
+			c.settle()
+		case "getmany", "list":
+			if f[0] == "getmany" {
+				c.st.GetMany(bg, "a", "b", "a")
+			} else if it, err := c.st.ListKeys(bg, "*"); err == nil {
+				for it.HasNext() {
+					it.Next()
+				}
+			}
+			c.flush("touch a;touch b")
+			c.settle()
 		case "cas":
 			// cas with the CURRENT version (succeeds) or a stale one (conflict)
 			cur, err := c.st.Get(bg, f[1])
@@ -459,11 +474,23 @@ func runWaitersCase(ctx *Ctx, specs [][2]interface{}, script []string) {
 				if c.parkedOn(f[1]) > 0 && f[2] != "stale" {
 					c.nontriv = true
 				}
-				r, err := c.st.CasByVersion(bg, kvs.Record{Key: f[1], Value: []byte("s"), Version: ver})
+				casRec := kvs.Record{Key: f[1], Value: []byte("s"), Version: ver}
+				casEx := -1
+				if f[2] == "currentx" {
+					c.mu.Lock()
+					casEx = c.vnow + 12
+					c.mu.Unlock()
+					tx := c.base.Add(time.Duration(casEx) * time.Millisecond)
+					casRec.ExpiresAt = &tx
+				}
+				r, err := c.st.CasByVersion(bg, casRec)
 				if err == nil {
 					c.versions = append(c.versions, r.Version)
 					delete(c.expiry, f[1])
 					delete(c.lapsed, f[1])
+					if casEx >= 0 {
+						c.expiry[f[1]] = casEx
+					}
 					c.flush("write " + f[1])
 				} else {
 					c.flush("touch " + f[1])
@@ -647,8 +674,12 @@ func runWaiters(ctx *Ctx) {
 				script = append(script, "putx "+k)
 			case x < 70:
 				script = append(script, "create "+k)
-			case x < 78:
+			case x < 74:
 				script = append(script, "cas "+k+" current")
+			case x < 76:
+				script = append(script, "cas "+k+" currentx")
+			case x < 78:
+				script = append(script, []string{"get " + k, "getmany", "list"}[r.Intn(3)])
 			case x < 83:
 				script = append(script, "cas "+k+" stale")
 			case x < 93:
